@@ -69,6 +69,47 @@ def overlapping(v, meta, seed, tier):
     return len(lines), bad
 
 
+def level_switch(v, meta, seed, tier):
+    """the compression level changed in the middle of a session (between stored and deflated, both ways, while the compress
+    worker waits for more data): every container of the finished file must still be what its own header says, and the
+    concatenated payload the concatenation of the encodings."""
+    rng = random.Random(seed + 177)
+    g = filerun.Gen(meta, rng)
+    mexe = common.build_model_driver()
+    hexe = common.build_harness('file', extra_flags=['-D_GLIBCXX_SANITIZE_VECTOR'])
+    lines, objs_of = [], []
+    for lv1, lv2, cs, n1, n in ((6, 0, 4096, 100, 250), (0, 6, 4096, 100, 250), (1, 0, 0x20000, 120, 200), (0, 9, 1000, 30, 90), (6, 1, 4096, 100, 250)) if tier == 'quick' else \
+            [(a, b, c, 100, 250) for a in (0, 1, 6, 9) for b in (0, 1, 6, 9) if a != b for c in (1000, 4096, 0x20000)]:
+        objs = [g.obj('CanMessage') for _ in range(n)]
+        lines.append('FV %d %d %d %d 60' % (lv1, lv2, cs, n1) + ''.join(' | ' + o for o in objs))
+        objs_of.append((lv1, lv2, cs, n1, objs))
+    allobjs = sorted(set(o for t in objs_of for o in t[4]))
+    eo = dict(zip(allobjs, codec.run_model(mexe, ['W ' + o for o in allobjs])))
+    io = codec.run_impl(hexe, lines)
+    bad = 0
+    for (lv1, lv2, cs, n1, objs), i in zip(objs_of, io):
+        if i == 'SKIPPED':
+            continue
+        why = None
+        if not i.startswith('FV ok'):
+            why = i[:100]
+        else:
+            data = bytes.fromhex(i.split(' ')[2])
+            pay = b''.join(bytes.fromhex(eo[o].split(' ')[2]) for o in objs)
+            try:
+                st, conts = filerun.parse_blf(data)
+                got = b''.join(c['payload'] for c in conts)
+                if got != pay:
+                    why = 'the containers decode to %d bytes, the objects encode to %d' % (len(got), len(pay))
+            except filerun.FormatError as ex:
+                why = str(ex)
+        if why:
+            bad += 1
+            v.violation('C04:level-switch', 'compression level changed from %d to %d after %d of %d objects (container size %d): %s' % (lv1, lv2, n1, len(objs), cs, why),
+                        {'scenario': 'FV %d %d %d %d 60 | %d CanMessage objects' % (lv1, lv2, cs, n1, len(objs)), 'implementation': i[:300]})
+    return len(lines), bad
+
+
 def run(v, tier, seed, replay=None):
     meta, _ = common.translate()
     ok, failed, info = coqrun.prove(v, 'C04', ['Inst/FileEq.v'])
@@ -76,6 +117,7 @@ def run(v, tier, seed, replay=None):
     ndis = filerun.report_disagreements(v, res, 'C04', kinds=('w',))
     checked = oracle(v, res, CODES, 'C04', meta)
     nov, badov = overlapping(v, meta, seed, tier)
+    nls, badls = level_switch(v, meta, seed, tier)
     if not ok and not v.violations:
         for fl in failed:
             v.violation('coq:' + fl['lemma'], 'proof obligation %s (%s:%d) no longer checks: %s' % (fl['lemma'], fl['file'], fl['line'], fl['error'][:200]),
@@ -85,7 +127,7 @@ def run(v, tier, seed, replay=None):
         'obligations': info['obligations'], 'discharged': info['discharged'], 'checker_cmd': info['checker_cmd'],
         'trusted_base': TRUSTED + info['print_assumptions'], 'failed_obligations': info['failed'],
         'rule': 'write sessions: levels 0-9 x container sizes {1,2,3,5,16,17,31..49,64,100,255,256,1000,4096,0x20000} x restore points on/off x random headers x 0..8 objects from a pool of 20 classes (API-populated), plus totals that are exact multiples of the container size and objects several containers long; each finished file is compared byte for byte with the extracted model and decoded by the independent decoder (signature, header size/type/version, objectSize = 32 + stored, method, FLEVEL class, inflate = declared size, container <= configured size, zero padding, nothing else in the file, concatenated payload = concatenation of the per-object encodings). Non-trivial = session with at least one object.',
-        'files_decoded_independently': checked, 'overlapping_lifetime_sessions': nov,
+        'files_decoded_independently': checked, 'overlapping_lifetime_sessions': nov, 'level_switch_sessions': nls,
         'correspondence_disagreements': ndis,
         'theorems': ['C04_file_is_header_then_containers', 'C04_container_sizes', 'C04_config_independent'],
         'not_a_theorem_yet': 'per-container byte format (decided by the independent decoder on every generated file and by byte equality with the model)',
